@@ -73,6 +73,20 @@ CHECKS['C08'] = dict(
         'correspondence runs (C01, C03..C16), not by this check; -M below |d|+8 underflows in the C and is outside the property; Coq kernel; translator; extraction; gcc.',
    technique='Coq proof (dotify loop invariant, putname/readname round trip, composition with codec and matcher theorems), differential correspondence',
    design='4/C08')
+CHECKS['C01'] = dict(
+   text='PARTIAL. Coq theorems about both fragment protocols as abstract transition systems with ghost packet numbers and an adversarial '
+        'network (every chunk, header and ack ever sent may be lost, duplicated, re-ordered): under the network hypothesis N* (delay <= 3 '
+        'packets, query freshness <= 2 packets, receiver <= 5 packets behind, <= 16 fragments) every buffer handed to uncompress() on either '
+        'side is the complete in-order fragment sequence of ONE packet (inductive invariant, unbounded executions); fragments tile the '
+        'packet bytes; raw-mode frame decodes to its payload; non-vacuity scripts; and a proved WITNESS that outside N* the reassembly logic '
+        'alone mis-assembles (integrity then rests on zlib Adler-32, which is not modelled) -- so the "for all network behaviours" part of the '
+        'statement is not proved. Tie: abstract rules proved equal to the decision expressions of Server.v/Client.v; the composed model '
+        '(Tunnel.v = Client.v + Server.v + network) is run against the two real programs on random fault schedules over all configurations, '
+        'and an implementation-level oracle (real zlib) checks every tun write against the packets offered at the peer.',
+   note='Trusts: the abstraction from Server.v/Client.v to ProtoUp.v/ProtoDown.v (by inspection plus the rule-tie lemmas; the big dispatcher '
+        'functions are not proved to refine the abstract steps); zlib as an oracle (unz (zc p) = Some p); one client session; Coq kernel; translator; extraction; gcc.',
+   technique='Coq proof (inductive invariant over an adversarial-network transition system, both directions) + refutation witness outside the hypothesis; whole-system differential correspondence and integrity oracle',
+   design='4/C01')
 NOT_YET = {}
 
 def main():
